@@ -199,6 +199,15 @@ class Cx:
             fns[key] = z3.Function("map!%d" % len(fns), SeqV, SeqV)
         return fns[key]
 
+    def image_fn(self, term, var):
+        """Function symbol SetV -> SetV for `{term(var) for var in S}` (shared by all sites with the same element)."""
+        canon = z3.Const("x!canon", Val)
+        key = z3.substitute(term, (var, canon)).sexpr()
+        fns = self.__dict__.setdefault("_imgfns", {})
+        if key not in fns:
+            fns[key] = z3.Function("image!%d" % len(fns), SetV, SetV)
+        return fns[key]
+
     def fresh(self, prefix, sort):
         return z3.Const("%s!%d" % (prefix, next(self.n)), sort)
 
@@ -865,9 +874,22 @@ class Interp:
     def e_GeneratorExp(self, e, st, k):
         return k(VGen(e, st.env), st)
 
+    def ev_args(self, nodes, st, k, acc=()):
+        """positional arguments, `*tuple` spliced when the tuple is a Python-level tuple"""
+        if not nodes:
+            return k(list(acc), st)
+        n = nodes[0]
+        if isinstance(n, ast.Starred):
+            def ks(v, st2):
+                if not isinstance(v, VTuple):
+                    raise Unsupported("star-argument that is not a Python-level tuple")
+                return self.ev_args(nodes[1:], st2, k, acc + tuple(v.items))
+            return self.ev(n.value, st, ks)
+        return self.ev(n, st, lambda v, st2: self.ev_args(nodes[1:], st2, k, acc + (v,)))
+
     def e_Call(self, e, st, k):
-        if any(isinstance(a, ast.Starred) for a in e.args) or any(kw.arg is None for kw in e.keywords):
-            raise Unsupported("star-args call at line %d" % e.lineno)
+        if any(kw.arg is None for kw in e.keywords):
+            raise Unsupported("**kwargs call at line %d" % e.lineno)
         # super().m(...)
         f = e.func
         if (isinstance(f, ast.Attribute) and isinstance(f.value, ast.Call) and isinstance(f.value.func, ast.Name)
@@ -875,10 +897,10 @@ class Interp:
             def ksup(args, st2):
                 return self.ev_list([kw.value for kw in e.keywords], st2, lambda kv, st3: self.call_super(
                     f.attr, args, dict(zip([kw.arg for kw in e.keywords], kv)), st3, k))
-            return self.ev_list(e.args, st, ksup)
+            return self.ev_args(e.args, st, ksup)
 
         def k1(fv, st2):
-            return self.ev_list(e.args, st2, lambda args, st3: self.ev_list(
+            return self.ev_args(e.args, st2, lambda args, st3: self.ev_list(
                 [kw.value for kw in e.keywords], st3,
                 lambda kv, st4: self.call(fv, args, dict(zip([kw.arg for kw in e.keywords], kv)), st4, k)))
         return self.ev(f, st, k1)
@@ -927,6 +949,9 @@ class Interp:
             return k(VFunc("bmeth", self_ref=obj, base="objdict", name=name), st)
         if isinstance(obj, VStr):
             return k(VFunc("bmeth", self_ref=obj, base="str", name=name), st)
+        if isinstance(obj, VFunc) and obj.kind == "repo" and getattr(obj, "module", None) == "itertools" \
+                and obj.name == "chain" and name == "from_iterable":
+            return k(VFunc("builtin", name="chain.from_iterable"), st)
         h = getattr(cx, "getattr_hook", None)
         if h is not None:
             r = h(self, obj, name, st, k)
@@ -990,6 +1015,8 @@ class Interp:
 
     # -- calls ------------------------------------------------------------------
     def call_super(self, name, args, kwargs, st, k):
+        if name == "__new__" and st.ghost.get("__new_obj__") is not None:
+            return k(st.ghost["__new_obj__"], st)
         selfv = st.env.get(self.cx.self_name or "self")
         if not isinstance(selfv, VRef):
             raise Unsupported("super() without a heap self")
@@ -1048,12 +1075,15 @@ class Interp:
     def bind_params(self, node, args, kwargs, st, k_bound):
         """Evaluate defaults and bind parameters of FunctionDef/Lambda `node`; -> env dict via k_bound(env, st)."""
         a = node.args
-        if a.vararg or a.kwarg:
-            raise Unsupported("*args/**kwargs in callee %s" % getattr(node, "name", "<lambda>"))
+        if a.kwarg:
+            raise Unsupported("**kwargs in callee %s" % getattr(node, "name", "<lambda>"))
         pos = [p.arg for p in a.posonlyargs + a.args]
+        env = {}
+        if a.vararg:
+            env[a.vararg.arg] = VTuple(args[len(pos):])
+            args = args[:len(pos)]
         if len(args) > len(pos):
             return raise_(st, "TypeError", origin="too-many-arguments")
-        env = {}
         for n, v in zip(pos, args):
             env[n] = v
         for n, v in kwargs.items():
